@@ -145,3 +145,57 @@ Proof.
   - vm_compute. repeat split; reflexivity.
 Qed.
 End C19_DB.
+
+(* ======================================================================================================
+   Derive (derive.go), the in-tree client that starts work on the initialization signal. Table/Clients.v
+   models Derive / derive.loop as a program over Table/Model.v's operations (engine `clients` runs the real
+   loop leg by leg against it); Table/ClientsProofs.v proves:                                            *)
+From SV Require Import Table.Clients Table.ClientsProofs.
+
+(* every run of the system (harness transactions, legs of the Derive loop, observer callbacks) IS a run of
+   Table/Model.v operations: all theorems about runs apply to it *)
+Theorem C19_client_runs_are_model_runs : forall cs s s' outs ops,
+  crun s cs = (s', outs, ops) -> cs_db s' = fst (run (cs_db s) ops).
+Proof. exact crun_is_run. Qed.
+Print Assumptions C19_client_runs_are_model_runs.
+
+(* the loop marks the derived table's initializer done only in an iteration whose transaction saw the INPUT
+   table initialized in the committed root it started from, for every transform function *)
+Theorem C19_derive_marks_only_when_input_initialized : forall tr ds d d' ds' ops,
+  derive_iter tr ds d = (d', ds', ops) ->
+  dv_marked ds = false -> dv_marked ds' = true -> d_txn d = None -> dv_in ds <> dv_out ds ->
+  exists t, nth_error (d_root d) (dv_in ds) = Some t /\ fst (fst (q_init t)) = true.
+Proof. exact derive_marks_only_when_input_initialized. Qed.
+Print Assumptions C19_derive_marks_only_when_input_initialized.
+
+(* ... and it does so in the same transaction as, and after, the writes that transform everything that
+   root held: the mark sits after all the writes of the iteration and immediately before its Commit *)
+Theorem C19_derive_mark_follows_the_writes : forall tr ds d d' ds' ops,
+  derive_iter tr ds d = (d', ds', ops) -> dv_marked ds = false -> dv_marked ds' = true ->
+  exists o2, ops = [OBegin [dv_out ds]; ONext (dv_iid ds) STxn None] ++ o2 ++
+                   [OInitDone (dv_out ds) (dv_name ds); OCommit (dv_sid ds)] /\
+             forallb (dwrite (dv_out ds)) o2 = true.
+Proof. exact derive_initdone_position. Qed.
+Print Assumptions C19_derive_mark_follows_the_writes.
+
+(* in every other iteration nothing is marked: the initializer is completed at most once *)
+Theorem C19_derive_marks_at_most_once : forall tr ds d d' ds' ops,
+  derive_iter tr ds d = (d', ds', ops) -> (dv_marked ds' = false \/ dv_marked ds = true) ->
+  (dv_marked ds = true -> dv_marked ds' = true) /\ forall a b, ~ In (OInitDone a b) ops.
+Proof. exact derive_no_initdone. Qed.
+Print Assumptions C19_derive_marks_at_most_once.
+
+Example C19_derive_nonvacuous :
+  cs_d cx_s = Some cx_ds /\ d_txn (cs_db cx_s) = None /\ dv_in cx_ds <> dv_out cx_ds /\ dv_marked cx_ds = false /\
+  (let s0 := fst (fst (crun (init_csys 2 0) (firstn 6 cx_pre))) in
+   match cs_d s0 with
+   | Some ds0 => dv_marked (snd (fst (derive_iter (tr_std 0) ds0 (cs_db s0)))) = false /\
+                 snd (derive_iter (tr_std 0) ds0 (cs_db s0)) =
+                   [OBegin [1%nat]; ONext derive_iid STxn None; OInsert 1 (cx_pa 1); OCommit derive_sid]
+   | None => False end) /\
+  dv_marked (snd (fst (derive_iter (tr_std 0) cx_ds (cs_db cx_s)))) = true /\
+  snd (derive_iter (tr_std 0) cx_ds (cs_db cx_s)) =
+    [OBegin [1%nat]; ONext derive_iid STxn None; OInsert 1 (cx_pb 2); ODelete 1 [97];
+     OInitDone 1 derive_name; OCommit derive_sid] /\
+  option_map (fun t => fst (fst (q_init t))) (nth_error (d_root (cs_db cx_s)) 0) = Some true.
+Proof. exact derive_init_nonvacuous. Qed.
